@@ -120,7 +120,9 @@ func cmdWorker(args []string) int {
 	maxRuns := fs.Int64("runs", 1<<40, "total run budget (over all workers)")
 	out := fs.String("out", "", "output directory")
 	verif := fs.String("verif", "/verif", "verif dir")
+	tier := fs.String("tier", "quick", "quick|thorough")
 	_ = fs.Parse(args)
+	tierName = *tier
 	runtime.GOMAXPROCS(2)
 	kf := loadKnown(*verif)
 	prof := profileFor(*prop)
@@ -313,6 +315,7 @@ func cmdCheck(args []string) int {
 	if workers < 1 {
 		workers = 1
 	}
+	tierName = *tier
 	tc := tierFor(*prop, *tier)
 	start := time.Now()
 	outDir := filepath.Join(*verif, "out", *prop)
@@ -390,7 +393,7 @@ func cmdCheck(args []string) int {
 	// ---- 2. seeded search
 	var cmds []*exec.Cmd
 	for i := 0; i < workers; i++ {
-		c := exec.Command(self, "worker", "-prop", *prop, "-seed", fmt.Sprint(seed), "-w", fmt.Sprint(i), "-W", fmt.Sprint(workers),
+		c := exec.Command(self, "worker", "-prop", *prop, "-tier", *tier, "-seed", fmt.Sprint(seed), "-w", fmt.Sprint(i), "-W", fmt.Sprint(workers),
 			"-budget", fmt.Sprint(tc.budgetS), "-runs", fmt.Sprint(tc.runs), "-out", outDir, "-verif", *verif)
 		c.Stderr = os.Stderr
 		if err := c.Start(); err != nil {
